@@ -50,6 +50,11 @@ W(s, a) == CASE a = 0 -> 4 [] a = 1 -> 2 * Sqrt(s) [] a = 2 -> s
 \* whitened field for a mode with singular value s:  (s^2/16)^alpha
 WCovEig16(s, a) == CASE a = 0 -> 16 [] a = 1 -> 4 * s [] a = 2 -> s * s
 
+\* C16: the whitening matrix T = C^((alpha-1)/2) acts on the principal direction of a mode with singular
+\* value s as multiplication by the gain g = (s^2/kappa)^((alpha-1)/2) = W(s, alpha) / s; data and patterns
+\* entering the whitened space are multiplied by g, those leaving it by 1/g.  Gain as <<num, den>> (kappa = n):
+Gain(s, a) == <<W(s, a), s>>
+
 AlphaOf(f, al) == CASE f = "MCA" -> <<2, 2>> [] f = "CCA" -> <<0, 0>> [] f = "RDA" -> <<0, 2>> [] OTHER -> al
 
 RX(c) == Len(c.sx)
@@ -79,6 +84,7 @@ Predict(c) ==
         sumsq  |-> SumSeq([j \in 1..RY(c) |-> Sigma75(c, j) * Sigma75(c, j)]),     \* 75^2 * total squared covariance
         npairs |-> Cardinality({j \in 1..RY(c) : Matched(c, j)}),
         wcovx16 |-> [i \in 1..RX(c) |-> WCovEig16(c.sx[i], AlphaOf(c.fam, c.alpha)[1])],
+        gainx |-> [i \in 1..RX(c) |-> Gain(c.sx[i], AlphaOf(c.fam, c.alpha)[1])],
         wcovy16 |-> [j \in 1..RY(c) |-> WCovEig16(c.sy[j], AlphaOf(c.fam, c.alpha)[2])],
         alpha  |-> AlphaOf(c.fam, c.alpha)]
 
@@ -140,6 +146,11 @@ C16_WhitenedCovIsPower ==
 \* C10: the named methods are CPCCA at their special alphas
 C10_NamedIsSpecialCase ==
     (Done /\ cfg.fam # "CPCCA") => Predict([cfg EXCEPT !.fam = "CPCCA", !.alpha = AlphaOf(cfg.fam, cfg.alpha)]) = pred
+\* C16: the gain of the whitening map squared, times the mode's covariance eigenvalue, is the whitened eigenvalue:
+\* (g^2) * (s^2/16) = wcov/16
+C16_GainConsistent ==
+    Done => \A i \in 1..RX(cfg) : pred.gainx[i][1] * pred.gainx[i][1] * (cfg.sx[i] * cfg.sx[i]) = pred.wcovx16[i] * (pred.gainx[i][2] * pred.gainx[i][2])
+
 \* C10: PCA pre-reduction that keeps all modes changes nothing
 C10_PcaAllIsNoPca ==
     Done => Predict([cfg EXCEPT !.pca = "none", !.wide = FALSE]) = Predict([cfg EXCEPT !.pca = "all", !.wide = FALSE])
